@@ -835,7 +835,12 @@ class XsdElement(XsdComponent, ParticleMixin,
                     msg = _("missing enumeration facet in xs:NOTATION subtype")
                     context.validation_error(validation, self, msg, text)
 
+            # The simple content is decoded one level below the element, like its
+            # attributes and its children: at level 0 an xs:ID content of the root
+            # element would not be registered in the ID map.
+            context.level += 1
             result = content_decoder.raw_decode(text or '', validation, context)
+            context.level -= 1
             if not isinstance(context, DecodeContext):
                 value = result
             else:
